@@ -17,7 +17,7 @@ Module I := FloatIntervalFull F.
 Inductive verdict := VAccept | VReject | VUndecided.
 
 (** exponents beyond this are not expanded as integers B^|e| *)
-Definition big_exp : Z := 200000.
+Definition big_exp : Z := 1000.
 
 (** enclosure of s * B^e *)
 Definition ival (pr : F.precision) (B s e : Z) : I.type :=
@@ -38,10 +38,21 @@ Definition floorF (f : F.type) : Z :=
   | _ => 0
   end.
 
+(** heuristic enclosure-like guess of ln |x| for x = m * 2^e: ln (m * 2^-d) + (e + d) ln 2 with
+    m * 2^-d in [1/2, 1) (I.ln of a huge or tiny number is slow; nothing is concluded from it) *)
+Definition ln_guess (pr : F.precision) (X : I.type) : I.type :=
+  match I.midpoint (I.abs X) with
+  | Specific_ops.Float m e =>
+      let d := Z.log2 (Z.abs m) + 1 in
+      I.add pr (I.ln pr (pt (Specific_ops.Float m (- d))))
+               (I.mul pr (I.fromZ pr (e + d)) (I.ln pr (I.fromZ pr 2)))
+  | _ => I.nai
+  end.
+
 (** candidate for floor(log_B |t|) (heuristic) *)
 Definition guessE (B : Z) (T : I.type) : Z :=
   let pr := F.PtoP 128 in
-  floorF (I.midpoint (I.div pr (I.ln pr (I.abs T)) (I.ln pr (I.fromZ pr B)))).
+  floorF (I.midpoint (I.div pr (ln_guess pr T) (I.ln pr (I.fromZ pr B)))).
 
 Definition is_gt (c : Xcomparison) : bool := match c with Xgt => true | _ => false end.
 
@@ -94,14 +105,32 @@ Definition T_exp (prt pra : F.precision) (B s e : Z) : I.type :=
   let T3 := if is_gt (I.sign_strict U) then I.lower_extent (I.inv pra U) else I.whole in
   I.meet T1 (I.meet T2 T3).
 
-(** exp x - 1: x <= exp x - 1 <= x/(1-x) (x < 1) *)
-Definition T_expm1 (prt pra : F.precision) (B s e : Z) : I.type :=
+(** exp x - 1: x <= exp x - 1 <= x/(1-x) (x < 1).
+    A difference of floats whose exponents are K apart aligns K bits: beyond |x| > K (K >= 1) the
+    subtraction exp x - 1 is replaced by  exp x (1 - 2^-K) <= exp x - 1 <= exp x  (x >= K, as
+    exp K >= 2^K)  and  -1 <= exp x - 1 <= -1 + 2^-K  (x <= -K). *)
+Definition T_expm1_main (prt : F.precision) (K : Z) (X : I.type) : I.type :=
+  let EX := I.exp prt X in
+  let Kf := I.fromZ prt K in
+  if is_gt (I.sign_large (I.sub prt X Kf)) then
+    I.meet (I.lower_extent EX)
+           (I.upper_extent (I.mul prt EX (I.sub prt (ione prt) (ival prt 2 1 (- K)))))
+  else if is_gt (I.sign_large (I.sub prt (I.neg Kf) X)) then
+    I.meet (I.upper_extent (I.fromZ prt (-1)))
+           (I.lower_extent (I.add prt (I.fromZ prt (-1)) (ival prt 2 1 (- K))))
+  else I.sub prt EX (ione prt).
+
+Definition T_expm1 (prt pra : F.precision) (K B s e : Z) : I.type :=
   let X := ival pra B s e in
-  let T1 := I.sub prt (I.exp prt (ival prt B s e)) (ione prt) in
+  let T1 := if 1 <=? K then T_expm1_main prt K (ival prt B s e) else I.whole in
   let T2 := I.upper_extent X in
   let U := I.sub pra (ione pra) X in
   let T3 := if is_gt (I.sign_strict U) then I.lower_extent (I.div pra X U) else I.whole in
-  I.meet T1 (I.meet T2 T3).
+  (* x >= -2:  exp x = (exp (x/2))^2 >= (1 + x/2)^2, i.e. exp x - 1 >= x + x^2/4: a bound that stays
+     strictly away from x (a directed rounding of x + x^2/2 + ... lands exactly one ulp from x) *)
+  let T4 := if is_gt (I.sign_large (I.add pra X (I.fromZ pra 2)))
+            then I.upper_extent (I.add pra X (I.div pra (I.mul pra X X) (I.fromZ pra 4))) else I.whole in
+  I.meet (I.meet T1 T4) (I.meet T2 T3).
 
 (** verified logarithm: Newton iteration on exp (heuristic), then a bracket [a, b] re-established
     by two certified exp enclosures:  exp a <= x <= exp b  ->  a <= ln x <= b *)
@@ -144,7 +173,14 @@ Definition T_ln1p (prt pra : F.precision) (slack B s e : Z) (Y0 : I.type) (steps
   let T1 := vln prt slack X1 Y0 steps in
   let T2 := I.lower_extent X in
   let T3 := if is_gt (I.sign_strict X1) then I.upper_extent (I.div pra X X1) else I.whole in
-  I.meet T1 (I.meet T2 T3).
+  (* with r = sqrt (1 + x):  2 (1 - 1/r) <= 2 ln r = ln (1 + x) <= 2 (r - 1); both stay strictly away
+     from x (by about x^2/4 and 3x^2/4) *)
+  let S := I.sqrt pra X1 in
+  let T4 := if is_gt (I.sign_strict X1) && is_gt (I.sign_strict S) then
+              I.meet (I.lower_extent (I.mul pra (I.fromZ pra 2) (I.sub pra S (ione pra))))
+                     (I.upper_extent (I.mul pra (I.fromZ pra 2) (I.sub pra (ione pra) (I.inv pra S))))
+            else I.whole in
+  I.meet (I.meet T1 T4) (I.meet T2 T3).
 
 Definition T_powi (pra : F.precision) (B s e n : Z) : I.type :=
   I.power_int pra (ival pra B s e) n.
@@ -156,7 +192,7 @@ Definition T_powf (prt pra : F.precision) (slack B s e ys ye : Z) (Y0 : I.type) 
 (** ------------------------------------------------------------------------------------------
     the checkers.  (s, e) argument, (rs, re) result, fexact = the API flagged the result Exact.
     hint: 0 = start Newton from the result itself (ln, ln_1p), otherwise from I.ln at 60 bits. *)
-Definition start_of (pr : F.precision) (X : I.type) : I.type := I.ln (F.PtoP 60) X.
+Definition start_of (pr : F.precision) (X : I.type) : I.type := ln_guess (F.PtoP 60) X.
 
 Definition check_exp (prt pra : positive) (B p s e rs re : Z) (fexact : bool) : verdict :=
   let prt' := F.PtoP prt in let pra' := F.PtoP pra in
@@ -164,11 +200,22 @@ Definition check_exp (prt pra : positive) (B p s e rs re : Z) (fexact : bool) : 
   else if fexact && feq B rs re 1 0 then VReject          (* exp x = 1 only for x = 0 *)
   else decide_encl pra' B p (T_exp prt' pra' B s e) (ival pra' B rs re) fexact.
 
+(** exact comparison a * B^ea <= b * B^eb *)
+Definition fle (B a ea b eb : Z) : bool :=
+  let m := Z.min ea eb in a * B ^ (ea - m) <=? b * B ^ (eb - m).
+
+(** exp_m1 of x <= -K with 2^K > B^p:  -1 < t <= -1 + 2^-K < -1 + B^-p, so every r in
+    [-1, -1 + B^-p] is strictly within B^-p = ulp_p(t) of t (closed intervals cannot express -1 < t) *)
+Definition expm1_neg_rule (K B p s e rs re : Z) : bool :=
+  (1 <=? K) && (0 <=? p) && (B ^ p <? 2 ^ K) && fle B s e (- K) 0 &&
+  fle B (-1) 0 rs re && fle B rs re (1 - B ^ p) (- p).
+
 Definition check_expm1 (prt pra : positive) (B p s e rs re : Z) (fexact : bool) : verdict :=
   let prt' := F.PtoP prt in let pra' := F.PtoP pra in
   if s =? 0 then decide_exact pra' B p 0 0 rs re fexact
   else if fexact && feq B rs re s e then VReject          (* exp x - 1 = x only for x = 0 *)
-  else decide_encl pra' B p (T_expm1 prt' pra' B s e) (ival pra' B rs re) fexact.
+  else if negb fexact && expm1_neg_rule (Zpos prt) B p s e rs re then VAccept
+  else decide_encl pra' B p (T_expm1 prt' pra' (Zpos prt) B s e) (ival pra' B rs re) fexact.
 
 Definition check_ln (prt pra : positive) (slack : Z) (from_result : bool) (steps : list positive)
     (B p s e rs re : Z) (fexact : bool) : verdict :=
@@ -214,3 +261,38 @@ Definition check_powf (prt pra : positive) (slack : Z) (steps : list positive) (
     decide_encl pra' B p
       (T_powf prt' pra' slack B s e ys ye (start_of prt' (ival prt' B s e)) steps)
       (ival pra' B rs re) fexact.
+
+(** ------------------------------------------------------------------------------------------
+    as-is accuracy of the directed rounding modes (open finding C11 directed_faithful): every
+    intermediate operation rounds in the same direction, so the error of the final result can exceed
+    one ulp.  What the implementation still guarantees, and what these functions decide, is
+    B^E <= |r| and |r - t| < B^(E-p+2): less than B units in the last place of the RESULT. *)
+Definition loose_ulp (pr : F.precision) (B p : Z) (T Rv : I.type) : verdict := decide_ulp pr B (p - 1) Rv T.
+
+Definition loose_exp (prt pra : positive) (B p s e rs re : Z) : verdict :=
+  loose_ulp (F.PtoP pra) B p (T_exp (F.PtoP prt) (F.PtoP pra) B s e) (ival (F.PtoP pra) B rs re).
+
+Definition loose_expm1 (prt pra : positive) (B p s e rs re : Z) : verdict :=
+  loose_ulp (F.PtoP pra) B p (T_expm1 (F.PtoP prt) (F.PtoP pra) (Zpos prt) B s e) (ival (F.PtoP pra) B rs re).
+
+Definition loose_ln (prt pra : positive) (slack : Z) (steps : list positive) (B p s e rs re : Z) : verdict :=
+  let prt' := F.PtoP prt in let pra' := F.PtoP pra in
+  if s <=? 0 then VUndecided else
+  loose_ulp pra' B p (T_ln prt' pra' slack B s e (start_of prt' (ival prt' B s e)) steps) (ival pra' B rs re).
+
+Definition loose_ln1p (prt pra : positive) (slack : Z) (steps : list positive) (B p s e rs re : Z) : verdict :=
+  let prt' := F.PtoP prt in let pra' := F.PtoP pra in
+  loose_ulp pra' B p
+    (T_ln1p prt' pra' slack B s e (start_of prt' (I.add prt' (ione prt') (ival prt' B s e))) steps)
+    (ival pra' B rs re).
+
+Definition loose_powi (pra : positive) (B p s e n rs re : Z) : verdict :=
+  let pra' := F.PtoP pra in
+  if s =? 0 then VUndecided else loose_ulp pra' B p (T_powi pra' B s e n) (ival pra' B rs re).
+
+Definition loose_powf (prt pra : positive) (slack : Z) (steps : list positive) (B p s e ys ye rs re : Z) : verdict :=
+  let prt' := F.PtoP prt in let pra' := F.PtoP pra in
+  if s <=? 0 then VUndecided
+  else if (0 <=? ye) && (ye <=? 64) then loose_powi pra B p s e (ys * B ^ ye) rs re
+  else loose_ulp pra' B p
+         (T_powf prt' pra' slack B s e ys ye (start_of prt' (ival prt' B s e)) steps) (ival pra' B rs re).
